@@ -35,6 +35,9 @@ def cases(draw, max_chroms=3, max_bins=5, max_chunks=9):
     symmetric = draw(st.booleans())
     coords = draw(gen.pixel_coords(n, symmetric, max_nnz=40))
     k = draw(st.integers(1, max_chunks))
+    count_dtype = draw(st.sampled_from(["int32", "int32", "float64", "int64"]))
+    count_values = {"int32": st.integers(1, 50), "float64": gen.DYADIC.filter(lambda v: v != 0),
+                    "int64": st.one_of(st.integers(1, 50), st.integers(2**31, 2**40))}[count_dtype]
     chunks = []
     for _ in range(k):
         kind = draw(st.sampled_from(["some", "some", "some", "all", "none"]))
@@ -46,12 +49,13 @@ def cases(draw, max_chroms=3, max_bins=5, max_chunks=9):
         else:
             mask = draw(st.lists(st.booleans(), min_size=len(coords), max_size=len(coords)))
             sel = [c for c, m in zip(coords, mask) if m]
-        vals = draw(st.lists(st.tuples(st.integers(1, 50), gen.DYADIC), min_size=len(sel), max_size=len(sel)))
+        vals = draw(st.lists(st.tuples(count_values, gen.DYADIC), min_size=len(sel), max_size=len(sel)))
         chunks.append([[c[0], c[1], v[0], v[1]] for c, v in zip(sel, vals)])
     ensure_sorted = draw(st.booleans())
     return {"part": "unordered", "bt": bt, "symmetric": symmetric, "chunks": chunks,
             "order_seed": draw(st.integers(0, 2**16)),
-            "shuffle_within": ensure_sorted and draw(st.booleans()),
+            "shuffle_within": draw(st.sampled_from(["full", "within-rows", "none"])) if ensure_sorted else "none",
+            "count_dtype": count_dtype,
             "ensure_sorted": ensure_sorted,
             "mergebuf": draw(st.sampled_from([1, 2, 3, 5, 10, 10**6])),
             "max_merge": draw(st.sampled_from([1, 2, 3, 200])),
@@ -74,11 +78,16 @@ def check_unordered(case, ctx: Ctx):
     chunks = [list(c) for c in case["chunks"]]
     order = rng.permutation(len(chunks)).tolist()
     chunks = [chunks[t] for t in order]
-    if case["shuffle_within"]:
+    if case["shuffle_within"] in (True, "full"):
         chunks = [[c[t] for t in rng.permutation(len(c)).tolist()] for c in chunks]
+    elif case["shuffle_within"] == "within-rows":
+        # bin1_id stays non-decreasing, bin2_id is permuted inside every row
+        chunks = [sorted(c, key=lambda r, keys={id(r): rng.rand() for r in c}: (r[0], keys[id(r)])) for c in chunks]
+
+    cdt = case.get("count_dtype", "int32")
 
     def to_input(rs):
-        df = pixel_frame(rs, ["count", "x"], {"count": "int64", "x": "float64"})
+        df = pixel_frame(rs, ["count", "x"], {"count": "float64" if cdt == "float64" else "int64", "x": "float64"})
         return df if case["form"] == "frame" else {k: df[k].to_numpy() for k in df.columns}
 
     work = ctx.tmpdir()
@@ -92,6 +101,8 @@ def check_unordered(case, ctx: Ctx):
     uri = path + case["dest"]
     if cols != ["count"]:
         kw["columns"] = list(cols)
+    if cdt != "int32":
+        kw["dtypes"] = {"count": np.dtype(cdt)}
     try:
         before = sorted(os.listdir(tdir))
         call("create_cooler(ordered=False)", cooler.create_cooler, uri, gen.bins_df(bt),
@@ -107,6 +118,7 @@ def check_unordered(case, ctx: Ctx):
         got_ids = list(zip(df["bin1_id"].tolist(), df["bin2_id"].tolist()))
         check(got_ids == [(r[0], r[1]) for r in want],
               lambda: f"pixel set differs from in-memory aggregation: got {got_ids[:8]} want {[(r[0], r[1]) for r in want][:8]}")
+        check(str(df["count"].dtype) == cdt, f"count stored as {df['count'].dtype}, requested {cdt}")
         check(df["count"].tolist() == [r[2] for r in want],
               lambda: f"counts differ: got {df['count'].tolist()[:8]} want {[r[2] for r in want][:8]}")
         if "x" in cols:
@@ -135,7 +147,8 @@ def check_unordered(case, ctx: Ctx):
                           "all-empty" if not nonempty else "has-data",
                           "emptychunk" if len(nonempty) < len(case["chunks"]) else "no-emptychunk",
                           f"mergebuf={case['mergebuf']}", "sym" if symmetric else "square",
-                          "ensure_sorted" if case["ensure_sorted"] else "presorted"])
+                          "ensure_sorted" if case["ensure_sorted"] else "presorted", "shuffle=" + str(case["shuffle_within"]),
+                          "count=" + cdt])
 
 
 CHECKS = {"unordered": check_unordered}
